@@ -13,6 +13,7 @@ import select
 import socket
 import struct
 import threading
+import weakref
 
 from . import wire
 
@@ -155,12 +156,15 @@ class Server:
         with self.lock:
             idx = self.nconn
             self.nconn += 1
-        self.check_refusal(idx)
+        self.check_refusal(idx, nonblocking)
         c = Conn(self, idx, nonblocking)
         self.conns.append(c)
         return c
 
-    def check_refusal(self, idx):
+    def check_refusal(self, idx, nonblocking=False):
+        if nonblocking and self.rate == 'refuse':
+            self.log.append((idx, 'refused', None))
+            raise ConnectionRefusedError(errno.ECONNREFUSED, 'Connection refused')
         f = self.fault_for('connect', idx)
         if f == 'refuse':
             self.log.append((idx, 'refused', None))
@@ -223,6 +227,9 @@ class Conn:
             r = server.rate
             if r == 'close':
                 self.closed_by_server = True
+            elif r == 'reset':
+                self.closed_by_server = True
+                self.reset = True
             elif r == 'stall':
                 self.stalled = True
             elif r.startswith('greet:'):
@@ -353,7 +360,7 @@ class Ssh1Server(Server):
         with self.lock:
             idx = self.nconn
             self.nconn += 1
-        self.check_refusal(idx)
+        self.check_refusal(idx, nonblocking)
         c = Ssh1Conn(self, idx, nonblocking)
         self.conns.append(c)
         return c
@@ -446,8 +453,11 @@ class VSocket:
             elif srv == 'timeout':
                 self.pending_error = 'never'
             else:
-                self.conn = srv.accept(True)
-                self.rec['connected'] = True
+                try:
+                    self.conn = srv.accept(True)
+                    self.rec['connected'] = True
+                except OSError as e:
+                    self.pending_error = type(e)(*e.args)      # a fresh exception without traceback (no reference cycle through this frame)
             return errno.EINPROGRESS
         try:
             self.connect(addr)
@@ -464,7 +474,10 @@ class VSocket:
             raise OSError(errno.EBADF, 'Bad file descriptor')
         if self.pending_error is not None and self.pending_error != 'never':
             e, self.pending_error = self.pending_error, None
-            raise e
+            try:
+                raise e
+            finally:
+                del e           # no frame -> exception -> traceback -> frame cycle: the socket must die with its last reference, as a real one does
         c = self.conn
         if c is None:
             raise OSError(errno.ENOTCONN, 'Transport endpoint is not connected')
@@ -529,7 +542,8 @@ class VSocket:
             return -1
         with net.lock:
             if self not in net.fd_of:
-                net.fd_of[self] = 1000 + len(net.fd_of)
+                net.fd_seq += 1
+                net.fd_of[self] = 1000 + net.fd_seq
                 net.sock_of[net.fd_of[self]] = self
         return net.fd_of[self]
 
@@ -602,9 +616,10 @@ class FakeNet:
         self.stall_log = []
         self.segment = segment
         self.gai_calls = []
-        self.fd_of = {}
-        self.sock_of = {}
+        self.fd_of = weakref.WeakKeyDictionary()      # weak: a socket the program drops is reclaimed (and thereby closed) as in a real process
+        self.sock_of = weakref.WeakValueDictionary()
         self.binds = []
+        self.fd_seq = 0
         self.pending_clients = []
         self.client_addr = client_addr
         self.lock = threading.RLock()
